@@ -88,3 +88,66 @@ def collect_replay_results(ck, outp, what, keyfn):
             continue
         ck.violation(keyfn(r), f"{what}: " + r.get("why", ""), r)
     return summ[0]
+
+
+def _mutate_value(v):
+    if isinstance(v, bool):
+        return not v
+    if isinstance(v, int):
+        return v + 1
+    if isinstance(v, str):
+        if v.startswith("0x"):
+            body = v[2:] or "0"
+            last = body[-1]
+            return "0x" + body[:-1] + ("1" if last != "1" else "2")
+        if v and all(c in "0123456789abcdef" for c in v):
+            return v[:-1] + ("1" if v[-1] != "1" else "2")
+        return v + "x"
+    if isinstance(v, list) and v:
+        w = list(v)
+        w[0] = _mutate_value(w[0])
+        return w
+    return v
+
+
+def selftest_trace(ck, module, trace_path, targets, max_events=6000, timeout=1800):
+    """Binding demonstration: corrupt one recorded field (or drop one event) of an accepted trace and require
+    the trace specification to reject it.  `targets`: list of (event name, field or None=drop the event).
+    A corruption that is still accepted means the trace spec does not constrain that field: tool error."""
+    recs = vf.read_ndjson(trace_path)[:max_events]
+    # cut at a case boundary
+    while recs and recs[-1].get("ev") not in ("result", "vc.result", "tc.result", "fri.result", "pow.result", "commit.end", "points.ret", "domains", "diluted", "pubmem", "linear"):
+        recs.pop()
+    # only events inside cases that end in an accepting result are candidates: in a rejected case the
+    # code may stop before a corrupted intermediate value is ever used
+    ok_case = [False] * len(recs)
+    start = 0
+    for i, r in enumerate(recs + [{"ev": "reset"}]):
+        if r.get("ev") == "reset" and i > start:
+            good = any(x.get("ok") is True and str(x.get("ev", "")).endswith("result") for x in recs[start:i]) or \
+                not any(str(x.get("ev", "")).endswith("result") for x in recs[start:i])
+            for j in range(start, i):
+                ok_case[j] = good
+            start = i
+    done = []
+    for ev, field in targets:
+        idx = [i for i, r in enumerate(recs) if ok_case[i] and r.get("ev") == ev and (field is None or field in r)]
+        if not idx:
+            continue
+        i = idx[len(idx) // 2]
+        mutated = [dict(r) for r in recs]
+        if field is None:
+            del mutated[i]
+        else:
+            mutated[i][field] = _mutate_value(mutated[i][field])
+        p = trace_path + f".selftest.{ev}.{field}"
+        vf.write_ndjson(p, mutated)
+        res = vf.tlc(module, env={"TRACE": p}, workers=1, timeout=timeout, dfs=True, coverage=False, heap="8g")
+        vf.tlc_must_run(res, module + " selftest")
+        rejected = bool(res.violated)
+        done.append({"event": ev, "field": field or "<event dropped>", "rejected": rejected})
+        os.remove(p)
+        if not rejected:
+            raise vf.ToolError(f"selftest: {module} accepts a trace with {ev}.{field} corrupted - the trace specification does not bind that field")
+    ck.extra.setdefault("selftest", {})[module] = done
+    return done
